@@ -237,11 +237,14 @@ Expected(c) ==
 (* INPUT SPACE                                                              *)
 (* ======================================================================== *)
 CONSTANTS HMax,      \* Singles: stored version sets are the subsets of 1 .. HMax, in every order
+          SingleKinds, \* Singles: element kinds (a subset of KindSet; lets generation be spread over processes)
           BothVis,   \* Singles: both input Visible flags (otherwise the adversarial one)
           PairVers,  \* Pairs: versions used
           NRandom,   \* number of randomly drawn cases of the full product space
           BuildMax,  \* generating machine: at most this many elements per change
-          BuildIds   \* generating machine: element ids used
+          BuildIds,  \* generating machine: element ids used
+          StaticInit \* model checking starts from the static families and NRandom random draws (TRUE) or only from
+                     \* the generating machine (FALSE); lets the two halves run as separate TLC processes
 
 \* the input flag that the code has to overwrite
 AdvVis(s) == s = "delete"
@@ -269,7 +272,7 @@ Singles ==
     \cup
     {[ign |-> ign, nile |-> (v % 2 = 0), hist |-> <<MkHist(k, 2, <<1, 2, 3>>, 100)>>,   \* only another element's history
       ch |-> OneEl(s, k, [id |-> 1, v |-> v, vis |-> vi, m |-> CellMark(s, k) + 1])] : vi \in VisOf(s), ign \in BOOLEAN}
-    : s \in {"create", "modify", "delete"}, k \in KindSet, v \in 1 .. 4}
+    : s \in {"create", "modify", "delete"}, k \in SingleKinds, v \in 1 .. 4}
 
 \* --- a fixed world of histories for the multi-element families ---------------------------------------------
 \* per kind: id 1 unsorted with a gap and a later version, id 2 no history, id 3 unsorted with a far later version
@@ -367,8 +370,8 @@ Start(c) == /\ phase = "run" /\ inp = c /\ pos = Settle(c, 1, 1, 1) /\ acts = <<
 
 \* every static case and NRandom random cases start in phase "run"; the generating machine starts from the empty change in both worlds
 Init ==
-  \/ \E c \in StaticCases : Start(c)
-  \/ \E c \in {RandCase(n) : n \in 1 .. NRandom} : Start(c)
+  \/ StaticInit /\ \E c \in StaticCases : Start(c)
+  \/ StaticInit /\ \E c \in {RandCase(n) : n \in 1 .. NRandom} : Start(c)
   \/ /\ BuildMax > 0 /\ phase = "build"
      /\ inp \in {[ign |-> ign, nile |-> FALSE, hist |-> w, ch |-> NoChange] : ign \in BOOLEAN, w \in BuildWorlds}
      /\ pos = <<4, 1, 1>> /\ acts = << >> /\ res = NoRes
